@@ -287,6 +287,8 @@ pub struct WorkItem {
     pub job: usize,
     pub prefix: Vec<usize>,
     pub cost: usize,
+    /// Some(h): this is a determinism re-run of an earlier execution whose schedule signature was h
+    pub expect: Option<u64>,
 }
 
 /// Where pooled runners get work from and deliver finished executions to.
@@ -485,7 +487,7 @@ where
     O: Send + 'static,
     F: Fn() -> O + Send + Sync + 'static,
 {
-    let src = OneShot { item: Mutex::new(Some(WorkItem { job: 0, prefix: prefix.to_vec(), cost: 0 })), out: Mutex::new(None) };
+    let src = OneShot { item: Mutex::new(Some(WorkItem { job: 0, prefix: prefix.to_vec(), cost: 0, expect: None })), out: Mutex::new(None) };
     let f2 = f.clone();
     drive(cfg, Arc::new(move |_: &WorkItem| f2()), &src, 1);
     src.out.into_inner().unwrap().expect("execution completed")
@@ -499,6 +501,8 @@ pub struct Stats {
     pub sched_calls: u64,
     pub truncated: bool,
     pub bound: usize,
+    /// executions re-run to prove that a schedule determines the execution
+    pub replays: u64,
 }
 
 struct ExploreSrc<'a, O, C: Fn(&Exec<O>) + Sync> {
@@ -511,6 +515,8 @@ struct ExploreSrc<'a, O, C: Fn(&Exec<O>) + Sync> {
     scalls: AtomicU64,
     maxp: AtomicUsize,
     truncated: AtomicBool,
+    nondeterministic: AtomicBool,
+    replays: AtomicU64,
     on_exec: C,
     _o: std::marker::PhantomData<fn(O)>,
 }
@@ -537,6 +543,22 @@ impl<'a, O: Send, C: Fn(&Exec<O>) + Sync> WorkSource<O> for ExploreSrc<'a, O, C>
     }
 
     fn complete(&self, w: WorkItem, x: Exec<O>) {
+        // ownership of nondeterminism, proved: the first executions are run twice and must take the same
+        // decisions over the same enabled sets with the same labels
+        let sig = crate::common::hash_of(&format!("{:?}", x.points.iter().map(|p| (&p.enabled, p.chosen, p.current_enabled)).collect::<Vec<_>>()));
+        if let Some(h) = w.expect {
+            if h != sig {
+                self.nondeterministic.store(true, Ordering::SeqCst);
+            }
+            self.replays.fetch_add(1, Ordering::Relaxed);
+            let mut g = self.stack.lock().unwrap();
+            self.active.fetch_sub(1, Ordering::SeqCst);
+            drop(g.len());
+            drop(g);
+            self.cv.notify_all();
+            return;
+        }
+        let dup = if self.execs.load(Ordering::Relaxed) < 24 { Some(WorkItem { job: 0, prefix: x.choices.clone(), cost: w.cost, expect: Some(sig) }) } else { None };
         self.execs.fetch_add(1, Ordering::Relaxed);
         self.dpoints.fetch_add(x.points.len() as u64, Ordering::Relaxed);
         self.scalls.fetch_add(x.sched_calls, Ordering::Relaxed);
@@ -551,13 +573,16 @@ impl<'a, O: Send, C: Fn(&Exec<O>) + Sync> WorkSource<O> for ExploreSrc<'a, O, C>
                 for alt in 1..p.enabled.len() {
                     let mut pre = x.choices[..i].to_vec();
                     pre.push(alt);
-                    kids.push(WorkItem { job: 0, prefix: pre, cost: c });
+                    kids.push(WorkItem { job: 0, prefix: pre, cost: c, expect: None });
                 }
             }
         }
         {
             let mut g = self.stack.lock().unwrap();
             g.extend(kids);
+            if let Some(d) = dup {
+                g.push(d);
+            }
             self.active.fetch_sub(1, Ordering::SeqCst);
         }
         self.cv.notify_all();
@@ -573,7 +598,7 @@ where
 {
     let src = ExploreSrc {
         cfg,
-        stack: Mutex::new(vec![WorkItem { job: 0, prefix: vec![], cost: 0 }]),
+        stack: Mutex::new(vec![WorkItem { job: 0, prefix: vec![], cost: 0, expect: None }]),
         cv: Condvar::new(),
         active: AtomicUsize::new(0),
         execs: AtomicU64::new(0),
@@ -581,11 +606,17 @@ where
         scalls: AtomicU64::new(0),
         maxp: AtomicUsize::new(0),
         truncated: AtomicBool::new(false),
+        nondeterministic: AtomicBool::new(false),
+        replays: AtomicU64::new(0),
         on_exec,
         _o: std::marker::PhantomData,
     };
     drive(cfg, Arc::new(move |_: &WorkItem| f()), &src, cfg.threads.max(1));
+    if src.nondeterministic.load(Ordering::SeqCst) {
+        crate::common::machinery_error("replaying a recorded schedule took different decisions: some source of nondeterminism is not owned by the scheduler");
+    }
     Stats {
+        replays: src.replays.load(Ordering::Relaxed),
         executions: src.execs.load(Ordering::Relaxed),
         decision_points: src.dpoints.load(Ordering::Relaxed),
         max_points: src.maxp.load(Ordering::Relaxed),
@@ -605,7 +636,7 @@ impl<O: Send> WorkSource<O> for JobsSrc<O> {
     fn next(&self) -> Option<WorkItem> {
         let i = self.next.fetch_add(1, Ordering::Relaxed);
         if i < self.n {
-            Some(WorkItem { job: i, prefix: vec![], cost: 0 })
+            Some(WorkItem { job: i, prefix: vec![], cost: 0, expect: None })
         } else {
             None
         }
